@@ -1,0 +1,148 @@
+//! Verification hooks (cargo feature `verif`): a facade over the real [`BundleFactory`].
+//!
+//! Everything here forwards to the production code in `bundle_factory`; nothing is
+//! re-implemented. Re-exported through `crate::verif`.
+
+use astria_core::protocol::transaction::v1::{
+    action::RollupDataSubmission,
+    Action,
+    TransactionBody,
+};
+
+use super::bundle_factory::{
+    BundleFactory,
+    BundleFactoryError,
+    SizedBundle,
+};
+
+/// Why [`VerifBundleFactory::try_push`] refused a rollup transaction.
+#[derive(Clone, Debug, PartialEq, Eq)]
+pub enum PushRefusal {
+    /// `BundleFactoryError::SequenceActionTooLarge`
+    TooLarge {
+        size: usize,
+        max_size: usize,
+        message: String,
+    },
+    /// `BundleFactoryError::FinishedQueueFull`
+    FinishedQueueFull { message: String },
+}
+
+/// A bundle handed out by the factory (`SizedBundle`).
+#[derive(Clone)]
+pub struct VerifBundle(SizedBundle);
+
+impl VerifBundle {
+    /// The buffered actions in order.
+    #[must_use]
+    pub fn actions(&self) -> Vec<Action> {
+        self.0.verif_actions().to_vec()
+    }
+
+    /// `SizedBundle::get_size`: the size the bundle accounts for itself.
+    #[must_use]
+    pub fn size(&self) -> usize {
+        self.0.get_size()
+    }
+
+    /// `SizedBundle::actions_count`
+    #[must_use]
+    pub fn actions_count(&self) -> usize {
+        self.0.actions_count()
+    }
+
+    /// `SizedBundle::is_empty`
+    #[must_use]
+    pub fn is_empty(&self) -> bool {
+        self.0.is_empty()
+    }
+
+    /// `SizedBundle::to_transaction_body`: what the executor signs and submits.
+    #[must_use]
+    pub fn to_transaction_body(&self, nonce: u32, chain_id: &str) -> TransactionBody {
+        self.0.to_transaction_body(nonce, chain_id)
+    }
+}
+
+/// The real `BundleFactory`.
+pub struct VerifBundleFactory(BundleFactory);
+
+impl VerifBundleFactory {
+    /// `BundleFactory::new`
+    #[must_use]
+    pub fn new(max_bytes_per_bundle: usize, finished_queue_capacity: usize) -> Self {
+        Self(BundleFactory::new(
+            max_bytes_per_bundle,
+            finished_queue_capacity,
+        ))
+    }
+
+    /// `BundleFactory::try_push`
+    ///
+    /// # Errors
+    /// Returns the reason the factory gave for refusing the transaction.
+    pub fn try_push(&mut self, seq_action: RollupDataSubmission) -> Result<(), PushRefusal> {
+        self.0.try_push(seq_action).map_err(|error| {
+            let message = error.to_string();
+            match error {
+                BundleFactoryError::SequenceActionTooLarge {
+                    size,
+                    max_size,
+                } => PushRefusal::TooLarge {
+                    size,
+                    max_size,
+                    message,
+                },
+                BundleFactoryError::FinishedQueueFull(_) => PushRefusal::FinishedQueueFull {
+                    message,
+                },
+            }
+        })
+    }
+
+    /// What the executor does when a finished bundle is available:
+    /// `BundleFactory::next_finished` followed by `NextFinishedBundle::pop`.
+    pub fn pop_finished(&mut self) -> Option<VerifBundle> {
+        self.0
+            .next_finished()
+            .map(|next| VerifBundle(next.pop()))
+    }
+
+    /// `BundleFactory::next_finished().is_some()` without popping.
+    pub fn has_next_finished(&mut self) -> bool {
+        self.0.next_finished().is_some()
+    }
+
+    /// What the block timer does: `BundleFactory::pop_now`.
+    pub fn pop_now(&mut self) -> VerifBundle {
+        VerifBundle(self.0.pop_now())
+    }
+
+    /// `BundleFactory::is_full`
+    #[must_use]
+    pub fn is_full(&self) -> bool {
+        self.0.is_full()
+    }
+
+    /// Snapshot of the bundle currently being built.
+    #[must_use]
+    pub fn curr_bundle(&self) -> VerifBundle {
+        VerifBundle(self.0.verif_curr_bundle().clone())
+    }
+
+    /// Snapshot of the finished queue, front first.
+    #[must_use]
+    pub fn finished(&self) -> Vec<VerifBundle> {
+        self.0
+            .verif_finished()
+            .cloned()
+            .map(VerifBundle)
+            .collect()
+    }
+
+    /// The configured capacity of the finished queue.
+    #[must_use]
+    pub fn finished_queue_capacity(&self) -> usize {
+        self.0.verif_finished_queue_capacity()
+    }
+}
